@@ -576,3 +576,47 @@ def member_component_count(chk, P, key):
             raise mir.AnchorMissing("the component-count comparison of is_file_in_set")
         return True, "", [b.span]
     chk.ob(key, "a member's name has exactly as many dotted components between prefix and extension as the writer's templates produce", f)
+
+
+# ---- C12: the gRPC status is looked for in the response headers as well as in the trailers -----------------------------------------------------
+
+def grpc_status_in_headers_too(chk, P, key):
+    """A gRPC server that fails a call without sending a message answers with a single header block that ends the stream ("Trailers-Only"): the
+    `grpc-status` is then a *response header*, and no trailers follow.  A handler that starts from status 0 and only updates it from trailers counts
+    such a rejection as an acknowledgement.  Structural part: the gRPC response handler of the OTLP transport looks `grpc-status` up in the response's
+    headers (a keyed read on the response with that constant) besides matching it among the trailers."""
+    def f():
+        hosts = []
+        for k, b in sorted(P.bodies.items()):
+            if b.crate != "emit_otlp" or "OtlpTransportBuilder" not in k:
+                continue
+            consts = []
+            for c in b.calls(normal_only=True):
+                for a in c.args:
+                    v = mir.o_const_value(b.origin(a, through_calls=("deref", "as_ref", "borrow")))
+                    if v == "grpc-status":
+                        consts.append(c)
+            has_trailer_match = any(True for bb, t in b.switches() if False)
+            if consts or "grpc-status" in str([st for bb, j, st in b.statements(normal_only=True)][:0]):
+                hosts.append((b, consts))
+        # the handler is the body that awaits stream_payload
+        handlers = [b for k, b in sorted(P.bodies.items()) if b.crate == "emit_otlp" and "OtlpTransportBuilder" in k
+                    and any(c.callee.get("name") == "stream_payload" for c in b.calls(normal_only=True))]
+        if not handlers:
+            raise mir.AnchorMissing("the gRPC response handler (the body that awaits HttpResponse::stream_payload)")
+        ev = []
+        for h in handlers:
+            reads = []
+            for c in h.calls(normal_only=True):
+                if c.callee.get("name") in ("stream_payload",):
+                    continue
+                for a in c.args[1:]:
+                    if mir.o_const_value(h.origin(a, through_calls=("deref", "as_ref", "borrow"))) == "grpc-status":
+                        reads.append(c)
+            if not reads:
+                return False, ("%s takes the gRPC status from the trailers only (no read of `grpc-status` from the response's headers): a Trailers-Only response - "
+                               "how servers report UNAVAILABLE, RESOURCE_EXHAUSTED, UNAUTHENTICATED .. - leaves the status at its initial 0, so the rejected "
+                               "request counts as delivered and is never sent again" % h.key), [], h.span
+            ev += [c.loc for c in reads]
+        return True, "", ev
+    chk.ob(key, "the gRPC response handler reads grpc-status from the response headers as well as from the trailers", f)
